@@ -89,6 +89,9 @@ func (t *tokGen) val() string {
 	if t.r.chance(8) {
 		return "t0"
 	}
+	if t.r.chance(6) { // a typed nil (nil pointer / nil map / nil chan): must travel as it is, not as untyped nil
+		return "t" + strconv.Itoa(1001+t.r.intn(4))
+	}
 	return t.tok()
 }
 
